@@ -167,4 +167,33 @@ theorem c12_end_to_end :
   · intro caps _ dec cw hsp hd hemp hlp rows cols s e hl t ht a rest ha hok fi hlast
     exact C12Bridge.emu_and_term_show (caps := caps) dec cw hsp hd hemp hlp rows cols s e hl t ht a rest ha hok fi hlast
 
+/-- **One session, start-up and rendering together.** Take ANY run of Vaxis' start-up inside the
+    emulator — timers firing or not, any environment, any part of the replies delivered — and let `caps`
+    be the renderer's view of the capability record it ends with. Then every history rendered under THAT
+    capability set (from any linked state, on either screen, any sizes, through the clustering wire) is
+    shown by the emulator after every frame: the conclusion of clause (3) of `c12_end_to_end`, with the
+    capability set no longer a parameter but whatever the dialogue produced. -/
+theorem c12_session (hostBg : Option (Nat × Nat × Nat)) (e0 : Emu) (p : Params) (o : Opts)
+    (ls : List VaxisModel.Model.Startup.Label) (st : St) (hin : ∀ s ∈ inputsOf ls, s ∈ startupReplies hostBg e0)
+    (hrun : VaxisModel.Model.Startup.run p o (St.init o) ls = some st)
+    (merges : String → String → Bool) (cat : String → String → String)
+    (enc : G → String) (dec : String → G) (cw : String → Nat) (hsp : cw "20" = 1) (hd : dec "20" = [32]) (hemp : dec "" = [])
+    (hlp : LpOk dec) (segs : List Seg) (rows cols : Nat) (s : HState) (e : Emu) (hl : LinkedP dec cw s e rows cols)
+    (hok : ∀ sg ∈ segs, SegOk (rendererCaps st.sys.vs.caps) dec cw sg)
+    (hnm : ∀ sg ∈ segs, ∀ fi ∈ sg.frames, C01Cluster.NoJoinNeighbours merges cw (rendererCaps st.sys.vs.caps) fi.next)
+    (sg : Seg) (fi : FrameIn) (hsg : segs.getLast? = some sg) (hfi : sg.frames.getLast? = some fi) (henc : EncOk enc dec fi) :
+    ∃ (e' : Emu) (per : List (List DrawCall)),
+      runSegsM (rendererCaps st.sys.vs.caps) merges cat dec cw s e segs = .ok e' ∧
+      readScreen enc e'.active = Expected.expectedC cw (rendererCaps st.sys.vs.caps) fi.next ∧
+      readCursor e' = wantCursor fi ∧
+      draw true Model.Emu.Fixes.current e' sg.cols sg.rows true =
+        .ok ({ e' with hasVx := true }, per.flatten, shownCursor true e' true) ∧
+      per.length = sg.rows ∧
+      shownCursor true e' true = (if fi.cursor.visible then some (fi.cursor.col, fi.cursor.row) else none) := by
+  obtain ⟨_, hcaps, _⟩ := emu_dialogue_caps_capsOk hostBg e0 p o ls st hin hrun
+  haveI : CapsOk (rendererCaps st.sys.vs.caps) := hcaps
+  obtain ⟨e', per, hr, _, h3, h4, h5, h6, h7⟩ := c12_end_to_end.2.2.2.1 (rendererCaps st.sys.vs.caps) merges cat enc dec cw hsp hd hemp hlp
+    segs rows cols s e hl (fun x hx => segOkU_of_noSu (caps := rendererCaps st.sys.vs.caps) hcaps.su dec cw x (hok x hx)) hnm sg fi hsg hfi henc
+  exact ⟨e', per, hr, h3, h4, h5, h6, h7⟩
+
 end VaxisModel.Props.C12Main
